@@ -4,5 +4,5 @@ set -e
 export GOFLAGS=-mod=mod GOPROXY=off GOSUMDB=off GOTOOLCHAIN=local
 B=/dev/shm/vb; mkdir -p $B
 /verif/bin/verif-instrument -repo ${VERIF_REPO:-/repo} -out $B/ov >/dev/null
-cp /verif/sim/go.mod $B/go.mod; XS=$(cd ${VERIF_REPO:-/repo} && go1.26.8 list -m -f '{{.Dir}}' golang.org/x/sync); rm -rf $B/xsync; cp -r $XS $B/xsync; chmod -R u+w $B/xsync; cp $B/ov/golang.org/x/sync/singleflight/singleflight.go $B/xsync/singleflight/singleflight.go; echo "replace golang.org/x/sync => $B/xsync" >> $B/go.mod; cat ${VERIF_REPO:-/repo}/go.sum /verif/sim/go.sum.extra > $B/go.sum
+sed "s#=> /repo#=> ${VERIF_REPO:-/repo}#" /verif/sim/go.mod > $B/go.mod; XS=$(cd ${VERIF_REPO:-/repo} && go1.26.8 list -m -f '{{.Dir}}' golang.org/x/sync); rm -rf $B/xsync; cp -r $XS $B/xsync; chmod -R u+w $B/xsync; cp $B/ov/golang.org/x/sync/singleflight/singleflight.go $B/xsync/singleflight/singleflight.go; echo "replace golang.org/x/sync => $B/xsync" >> $B/go.mod; cat ${VERIF_REPO:-/repo}/go.sum /verif/sim/go.sum.extra > $B/go.sum
 cd /verif/sim && go1.26.8 test -c -modfile=$B/go.mod -tags verif -vet=off -overlay $B/ov/overlay.json -o $B/sim.test "$@" .
